@@ -105,6 +105,15 @@ package readahead
 //@   modifies ghost err_reports(this)
 //@   ensures err_reports(this) == old(err_reports(this)) + 1
 
+// the accessors: Bytes is the line Scan last produced (the same slice, not a copy that could go
+// stale differently); OnError registers the callback Scan reports to
+//@ func (*ImmediateReadAhead).Bytes
+//@   pure
+//@   ensures ref(result) == ref(s.token) && off(result) == off(s.token) && len(result) == len(s.token)
+//@ func (*ImmediateReadAhead).OnError
+//@   modifies s.onError
+//@   ensures s.onError == f
+
 //@ pred consumed_b(s) := rd_len(s.r) - (len(s.buf) - s.offset)
 
 //@ pred wf_b(s) := 0 <= s.offset && s.offset <= len(s.buf) && s.maxBufLen > 1 && s.maxBufLen <= 1099511627776 && s.delim == '\n'
